@@ -32,6 +32,7 @@ LEAF_DEFS = [
     {"type": "text"}, {"type": "keyword"}, {"type": "integer"}, {"type": "date"}, {"type": "boolean"},
     {"type": "string"}, {"type": "string", "index": "not_analyzed"}, {"type": "string", "index": "analyzed"},
     {"type": "string", "index": "no"}, {"type": "text", "index": "not_analyzed"}, {"type": "keyword", "index": "no"},
+    {"type": "alias", "path": "text"}, {"type": "ip"}, {"type": "geo_point"},
 ]
 SUB_DEFS = LEAF_DEFS + [{}, {"index": "not_analyzed"}, {"index": "analyzed"}, {"type": "string"}]
 
@@ -226,6 +227,10 @@ def fixed_schemas():
                                                     "fields": {"words": {"type": "string"}}}}}}},
         cur({"n": {"type": "nested", "properties": {"code": {"type": "text", "analyzer": "keyword", "search_analyzer": "keyword",
                                                                "fields": {"words": TX}}}}}),
+        # a field type that refers to another field: its class is that of ITS OWN mapped type (not analysed text)
+        cur({"title": TX, "headline": {"type": "alias", "path": "title"},
+             "meta": {"properties": {"abstract": {"type": "alias", "path": "title"}, "k": KW}},
+             "comments": {"type": "nested", "properties": {"content": {"type": "alias", "path": "title"}, "text": TX}}}),
         cur({"comment": {"type": "nested", "include_in_root": True, "properties": {"stars": KW, "text": TX}},
              "o": {"properties": {"c": {"type": "nested", "include_in_parent": True, "properties": {"k": KW}}}}}),
         cur({"order": {"type": "nested", "properties": {"ref": KW, "line": {
